@@ -27,6 +27,7 @@ def registry_src():
 def prepare_scratch(repo, scratch):
     """returns (crate_dir, notes). Copies the working tree, patches the dependency visibility
     (one keyword), injects toolkit and harness modules."""
+    os.makedirs(scratch, exist_ok=True)
     crate = os.path.join(scratch, 'repo')
     subprocess.run(['rsync', '-a', '--exclude', 'target', '--exclude', '.git', repo.rstrip('/') + '/', crate + '/'], check=True)
     oci = os.path.join(scratch, 'oci')
@@ -56,12 +57,28 @@ def prepare_scratch(repo, scratch):
     # harness modules
     mods = kani_gen.generate_all()
     for rel, text in mods.items():
+        if rel.startswith('+'):
+            # a new file of the toolkit: create it and declare the module
+            path = os.path.join(crate, rel[1:])
+            with open(path, 'w') as f:
+                f.write(text)
+            with open(os.path.join(crate, 'src/core/verif_kani/mod.rs'), 'a') as f:
+                f.write('\npub mod %s;\n' % os.path.basename(path)[:-3])
+            continue
         path = os.path.join(crate, rel)
         if not os.path.exists(path):
             raise RuntimeError('anchor lost: %s does not exist' % rel)
         with open(path, 'a') as f:
             f.write(text)
     return crate
+
+
+def _limit_mem():
+    # cap the address space of every process of the Kani run: a CBMC instance that explodes (> 14 GB)
+    # must die as "out of memory" (=> undecided) instead of taking the machine down
+    import resource
+    gb = int(os.environ.get('VERIF_CBMC_GB', '14'))
+    resource.setrlimit(resource.RLIMIT_AS, (gb << 30, gb << 30))
 
 
 RES_RE = re.compile(r'\*\* (\d+) of (\d+) failed')
@@ -81,7 +98,7 @@ def run_harnesses(crate, names, jobs=16, harness_timeout='10m', overall_timeout=
     log = os.path.join(crate, '..', 'kani.%d.log' % int(t0 * 1000))
     with open(log, 'w') as lf:
         try:
-            p = subprocess.run(cmd, cwd=crate, stdout=lf, stderr=subprocess.STDOUT, env=env, timeout=overall_timeout)
+            p = subprocess.run(cmd, cwd=crate, stdout=lf, stderr=subprocess.STDOUT, env=env, timeout=overall_timeout, preexec_fn=_limit_mem)
             rc = p.returncode
         except subprocess.TimeoutExpired:
             rc = -9
@@ -148,8 +165,10 @@ def run_harnesses(crate, names, jobs=16, harness_timeout='10m', overall_timeout=
                 if 'CBMC failed' in body or 'unsupported' in body.lower() and r['checks'] == 0:
                     r['status'] = 'tool_error'
                 else:
-                    r['status'] = 'failed'
                     r['failed_checks'] = re.findall(r'Failed Checks: (.*)', body)
+                    real = [c for c in r['failed_checks'] if 'unwinding assertion' not in c]
+                    # an insufficient unwind bound is a limit of the harness, never a violation
+                    r['status'] = 'failed' if real else 'unwind_bound'
             else:
                 r['status'] = 'unknown'
         results[n] = r
@@ -176,3 +195,151 @@ if __name__ == '__main__':
     print('wall %.0fs rc=%s %s' % (out['wall_s'], out['rc'], out['compile_error'] or ''))
     if not a.keep:
         shutil.rmtree(d)
+
+
+# ------------------------------------------------------------------------------------------
+# per-property driver
+
+PROP_RE = re.compile(r'^(C\d\d(?:,C\d\d)*):')
+
+
+def select(prop, cfg, tier):
+    """harnesses that serve `prop` in this tier. The quick selection is always part of the thorough one;
+    quick harnesses are `required` (an undecided one makes the check exit 2), thorough-only ones are
+    optional (a resource limit there only degrades the reported coverage)."""
+    kani_gen.generate_all()
+    sel = cfg.get('kani_select') or {}
+
+    def pick(t):
+        out = []
+        for n, h in sorted(kani_gen.HARNESSES.items()):
+            if prop not in h['props']:
+                continue
+            if t == 'quick' and h['tier'] != 'quick':
+                continue
+            if sel.get(t) and not re.search(sel[t], n):
+                continue
+            out.append(n)
+        return out
+    quick = pick('quick')
+    if tier == 'quick':
+        return quick
+    rest = [n for n in pick('thorough') if n not in quick]
+    return quick + rest
+
+
+def required(prop, cfg):
+    return set(select(prop, cfg, 'quick'))
+
+
+def run_property(prop, cfg, tier, repo, scratch, seed):
+    """returns dict(coverage=..., undecided=[...], violations=[...])"""
+    undecided, violations = [], []
+    cov = dict(complete_obligations=0, complete_discharged=0, bounded_checks=0, bounded_passed=0, bounds=[], detail={},
+               harnesses_run=0, harnesses_nonvacuous=0, solver_s=0.0, cmds=[], samples=[])
+    try:
+        crate = prepare_scratch(repo, os.path.join(scratch, 'kani'))
+    except Exception as e:
+        return dict(coverage=cov, undecided=['kani scratch build: %s' % e], violations=[])
+    names = select(prop, cfg, tier)
+    req = required(prop, cfg)
+    optional_undecided = []
+    if seed:
+        # the seed only rotates the order in which shapes are started; every shape of the tier is run
+        k = seed % max(1, len(names))
+        names = names[k:] + names[:k]
+    jobs = int(os.environ.get('VERIF_KANI_JOBS', '12'))
+    out = run_harnesses(crate, names, jobs=jobs, harness_timeout=cfg.get('kani_timeout', '15m' if tier == 'thorough' else '8m'))
+    cov['cmds'].append(out['cmd'])
+    if out['compile_error']:
+        undecided.append('kani: harness crate does not compile on this tree: %s' % out['compile_error'][:400].replace('\n', ' '))
+    bounds = set()
+    for n in names:
+        r = out['results'][n]
+        h = kani_gen.HARNESSES[n]
+        cov['harnesses_run'] += 1
+        cov['solver_s'] += r['time_s']
+        d = dict(status=r['status'], checks=r['checks'], failed=r['failed'], covers='%d/%d' % (r['covers_sat'], r['covers_total']),
+                 time_s=r['time_s'], bounded=h['bounded'], bound=h['bound'])
+        cov['detail'][n] = d
+        bounds.add(h['bound'])
+        if r['status'] == 'ok':
+            exp = h.get('covers_expected')
+            cmin = h.get('covers_min')
+            if r['checks'] == 0 or (exp is not None and r['covers_sat'] < exp) or (exp is None and cmin is None and r['covers_sat'] < r['covers_total']) \
+                    or (cmin is not None and r['covers_sat'] < cmin):
+                (undecided if n in req else optional_undecided).append('kani %s: vacuity guard: %d checks, covers %d/%d (expected %s)' % (n, r['checks'], r['covers_sat'], r['covers_total'], exp))
+                continue
+            cov['harnesses_nonvacuous'] += 1
+            if h['bounded']:
+                cov['bounded_checks'] += r['checks']
+                cov['bounded_passed'] += r['checks'] - r['failed']
+            else:
+                cov['complete_obligations'] += 1
+                cov['complete_discharged'] += 1
+            if len(cov['samples']) < 8:
+                cov['samples'].append(dict(harness=n, backend='kani/cbmc', shape=h.get('shape'), checks=r['checks'], bounded=h['bounded']))
+        elif r['status'] == 'failed':
+            mine, other = [], []
+            for c in r['failed_checks']:
+                m = PROP_RE.match(c.strip())
+                if m:
+                    (mine if prop in m.group(1).split(',') else other).append(c.strip())
+                else:
+                    mine.append(c.strip())
+            if h['bounded']:
+                cov['bounded_checks'] += r['checks']
+                cov['bounded_passed'] += r['checks'] - r['failed']
+            else:
+                cov['complete_obligations'] += 1
+            if mine:
+                violations.append(dict(obligation='%s.K.%s' % (prop, n), backend='kani/cbmc', message='; '.join(mine)[:600],
+                                       detail=dict(harness=h['path'], shape=h.get('shape'), failed_checks=r['failed_checks'], output=r['raw'][-1500:]),
+                                       key='K.%s' % n, harness=n, complete=not h['bounded']))
+        else:
+            (undecided if n in req else optional_undecided).append('kani %s: %s' % (n, r['status']))
+    cov['bounds'] = sorted(bounds)
+    cov['optional_undecided'] = optional_undecided
+    cov['solver_s'] = round(cov['solver_s'], 1)
+    # counterexamples for violations: concrete playback of the failing harness (values of kani::any())
+    for v in violations[:2]:
+        try:
+            cex = concrete_playback(crate, kani_gen.HARNESSES[v['harness']]['path'])
+            if cex:
+                v['counterexample'] = cex
+                v['replay_test'] = dict(harness=kani_gen.HARNESSES[v['harness']]['path'], concrete_vals=cex)
+        except Exception as e:  # pragma: no cover
+            v['detail']['playback_error'] = repr(e)
+    return dict(coverage=cov, undecided=undecided, violations=violations)
+
+
+def concrete_playback(crate, path, timeout=900):
+    cmd = ['cargo', 'kani', '-Z', 'stubbing', '-Z', 'concrete-playback', '--concrete-playback=print', '--exact', '--harness', path,
+           '--output-format=terse']
+    env = dict(os.environ, CARGO_NET_OFFLINE='true')
+    try:
+        p = subprocess.run(cmd, cwd=crate, capture_output=True, text=True, env=env, timeout=timeout)
+    except subprocess.TimeoutExpired:
+        return None
+    m = re.search(r'Concrete playback unit test.*?```(.*?)```', p.stdout, re.S)
+    if not m:
+        return None
+    vals = re.findall(r'vec!\[([\d, ]*)\],', m.group(1))
+    check = re.search(r'Check for `\w+`: "(.*?)"', m.group(1))
+    return dict(kani_any_values=[[int(x) for x in v.split(',') if x.strip()] for v in vals], failing_check=check.group(1) if check else None,
+                note='values returned by successive kani::any() calls of the harness (symbolic data, closure tables); replay: cargo kani playback test printed by Kani',
+                unit_test=m.group(1).strip()[:6000])
+
+
+def run_replay(r, repo):
+    print('replay: re-run the harness %s on %s with concrete playback' % (r['replay']['harness'], repo))
+    import tempfile
+    d = tempfile.mkdtemp(prefix='orxverif.replay.', dir='/var/tmp')
+    try:
+        crate = prepare_scratch(repo, d)
+        out = run_harnesses(crate, [r['replay']['harness']], jobs=1)
+        res = list(out['results'].values())[0]
+        print(res['status'], res['failed_checks'])
+        return 1 if res['status'] == 'failed' else 0
+    finally:
+        shutil.rmtree(d, ignore_errors=True)
